@@ -190,7 +190,7 @@ class Constant(Program):
     def all_constants_instantiation(
         self, constants: Dict[Type, TList[Any]]
     ) -> Generator["Program", None, None]:
-        if self.has_value():
+        if self.has_value() or self.type not in constants:
             yield self
         else:
             for val in constants[self.type]:
